@@ -164,6 +164,10 @@ def fold_const_switches(blocks):
         t = b["term"]
         if t is None or t["k"] != "switch":
             continue
+        if t.get("exp"):
+            # a literal that comes out of a macro (`cfg!(debug_assertions)` inside `debug_assert!`) is a build-configuration
+            # switch: both configurations stay in the graph, so what is done only in one of them is not a fact in the other
+            continue
         op = t["op"]
         if op.get("k") in ("move", "copy") and not op["place"]["proj"]:
             # `_t = const true; switchInt(move _t)`: the temporary is set in this block
